@@ -546,12 +546,16 @@ def streamInfo (i : Bits) : PResult (StreamInfo × Bits) := do
   if bitsPerSample > 255 then .error false else
   if ¬ (verifyBps bitsPerSample ∧ bitsPerSample % 4 = 0) then .error false else
   passert (md5.length = 16) "stream_info: md5.try_into().expect(\"Internal error\")"
-  -- set_block_sizes
-  if ¬ (1 ≤ minBlock ∧ minBlock ≤ 32767) then .error false else
-  if ¬ (1 ≤ maxBlock ∧ maxBlock ≤ 32767) then .error false else
-  if minBlock > maxBlock then .error false else
-  -- set_frame_sizes
-  if minFrame > maxFrame then .error false else
+  -- set_block_sizes, unless the block sizes are the initial ("unset") ones of a `StreamInfo` that has
+  -- not seen any frame (they are then kept: they equal the initial values)
+  let blockSizesUnset := total = 0 ∧ minBlock = 65535 ∧ maxBlock = 0
+  if ¬ blockSizesUnset ∧ ¬ (1 ≤ minBlock ∧ minBlock ≤ 32767) then .error false else
+  if ¬ blockSizesUnset ∧ ¬ (1 ≤ maxBlock ∧ maxBlock ≤ 32767) then .error false else
+  if ¬ blockSizesUnset ∧ minBlock > maxBlock then .error false else
+  -- set_frame_sizes, unless both are 0 ("unknown"): the frame sizes then stay in their initial state
+  let frameSizesUnknown := minFrame = 0 ∧ maxFrame = 0
+  if ¬ frameSizesUnknown ∧ minFrame > maxFrame then .error false else
+  let (minFrame, maxFrame) := if frameSizesUnknown then (2 ^ 32 - 1, 0) else (minFrame, maxFrame)
   pure ({ minBlock, maxBlock, minFrame, maxFrame, rate := sr, channels, bps := bitsPerSample,
           total, md5 }, i)
 
